@@ -259,8 +259,11 @@ def jobs(tier, seed):
                               {"tree": t, "fillers": fillers, "max_alias": ma, "header": hdr, "window": w},
                               reach=REACH[:2], min_paths=1, cost=100, validate=10, closure=False))
     some = rnd.sample(langs_all, 4 if tier == "quick" else 12)
-    for lang in (some if tier == "quick" else langs_all):
-        for t in (gtree.TREES if lang in some else ["basic"]):
+    # always: languages whose step keywords have no trailing blank (zh-CN: all of them, fr: the apostrophe forms), on a
+    # tree with one-word step texts
+    fixed = ["zh-CN", "fr"]
+    for lang in ((some + [l for l in fixed if l not in some]) if tier == "quick" else langs_all):
+        for t in (gtree.TREES if lang in some else ["bg-rule"] if lang in fixed else ["basic"]):
             try:
                 n = nlines(t, lang=lang, max_alias=ma, header=True)
             except ValueError:
